@@ -614,10 +614,10 @@ func init() {
 		ID:    "C19",
 		Level: "model_checking",
 		Rule: "three sub-checks on a parsed image (signed twice, and unsigned), a decoded signature database, a signed-update value and its authentication descriptor (Marshal / Verify), all built through the library in a build where every io.SectionReader / bytes.Buffer / bytes.Reader operation of go-uefi is redirected to instrumented wrappers (import rewrite): " +
-			"(1) sequential repetition: all sequences of read-only operations up to length 4; every result must equal the result of the same call on a fresh object and the object's complete private state (cursors included, white-box dump) must be unchanged after every call; " +
-			"(2) interleavings: cooperative scheduler with a scheduling point at every access to an object shared between threads (created before the threads started, or by another thread); harnesses = every multiset of operations for 2 threads x 1 operation, 2 threads x 2 operations, 3 threads x 1 operation on one shared object; iterative preemption bounding (stateless DFS, executions run to completion, fresh object per execution); " +
+			"(1) sequential repetition: all sequences of read-only operations up to length 4; every result must equal the result of the same call on a fresh object; the object's complete private state (cursors included, white-box dump) is compared before and after every call: a change of exported fields, or private state that changes again when the call is repeated, is a violation (a one-time private fill, e.g. a memo, is counted and allowed); every operation 64 times on one object; after every read-only prefix of length <= 2 a modifying call (AppendSignature / Sign; Append / Remove) followed by all read-only calls must give what they give on an object never looked at; " +
+			"(2) interleavings: cooperative scheduler with a scheduling point at every access to an object shared between threads (created before the threads started, or by another thread) and at every lock / Once / WaitGroup operation of the sync shim (a goroutine that would block is parked with its condition; only parked goroutines left = deadlock, a violation); harnesses = every multiset of operations for 2 threads x 1 operation, 2 threads x 2 operations, 3 threads x 1 operation on one shared object; iterative preemption bounding (stateless DFS, executions run to completion, fresh object per execution); " +
 			"every execution's results must equal the sequential reference; (3) a free-running -race build of the same operations with 16 goroutines (separate binary; a detector report is a violation, silence is not counted as exhaustive evidence)",
-		Assumptions: []string{"scheduling granularity = operations on shimmed cursor/buffer objects; plain field accesses are only seen by the -race pass", "no separate model: every schedule is executed on the real code (traces_validated_against_impl = executions)"},
+		Assumptions: []string{"scheduling granularity = operations on shimmed cursor/buffer objects and sync primitives; plain field accesses and sync/atomic operations are only seen by the -race pass", "no separate model: every schedule is executed on the real code (traces_validated_against_impl = executions)"},
 		Units:       c19Units,
 		Run:         c19Run,
 		Bound: func(tier string) map[string]any {
